@@ -215,6 +215,7 @@ def mode_footprint(job):
 
 
 def mode_count(job):
+    TRACE.update(tuple(x) for x in job.get("trace", []))
     slots = setup_slots(job["setup"])
     has_ctx = install()
     seq, counts = [], []
@@ -224,10 +225,35 @@ def mode_count(job):
             install()
         pts = []
         SCHED.counting = pts
-        seq.append(run_ops(ops, slots))
+        if TRACE:
+            sys.settrace(tracer)
+        try:
+            seq.append(run_ops(ops, slots))
+        finally:
+            sys.settrace(None)
         SCHED.counting = None
         counts.append(pts)
     return dict(has_module_context=has_ctx, sequential=seq, points=counts)
+
+
+TRACE = set()          # {(file basename, function name)}: every LINE of these functions is an instrumented point
+
+
+def tracer(frame, event, arg):
+    """sys.settrace hook (installed in the worker threads only): line-level switch points inside the selected functions
+    of the tree under test - instrumentation from the outside, no file is edited"""
+    if event != "call":
+        return None
+    co = frame.f_code
+    if (os.path.basename(co.co_filename), co.co_name) not in TRACE:
+        return None
+    name = co.co_name
+
+    def local(frame, event, arg):
+        if event == "line":
+            SCHED.point("%s:%d" % (name, frame.f_lineno))
+        return local
+    return local
 
 
 def run_threads(threads_ops, slots, schedule):
@@ -239,6 +265,8 @@ def run_threads(threads_ops, slots, schedule):
 
     def body(i):
         SCHED.tids[threading.get_ident()] = i
+        if TRACE:
+            sys.settrace(tracer)
         try:
             results[i] = run_ops(threads_ops[i], slots)
         except BaseException as e:          # scheduler failure, not an API exception (those are inside results)
@@ -260,16 +288,50 @@ def run_threads(threads_ops, slots, schedule):
     return results, errors, list(SCHED.trace), unused, infeasible
 
 
+def one_schedule(job, slots, sch):
+    if job.get("fresh_setup"):
+        slots = setup_slots(job["setup"])        # new shared objects: every schedule meets them for the first time
+    install()
+    results, errors, trace, unused, infeasible = run_threads(job["threads"], slots, sch)
+    return dict(schedule=sch, results=results, errors=errors, trace=trace, unused=unused, infeasible=infeasible,
+                ctx=W.ctx_cells())
+
+
 def mode_forced(job):
+    TRACE.update(tuple(x) for x in job.get("trace", []))
     slots = setup_slots(job["setup"])
     out = []
     for sch in job["schedules"]:
-        if job.get("fresh_setup"):
-            slots = setup_slots(job["setup"])        # new shared objects: every schedule meets them for the first time
-        install()
-        results, errors, trace, unused, infeasible = run_threads(job["threads"], slots, sch)
-        out.append(dict(schedule=sch, results=results, errors=errors, trace=trace, unused=unused, infeasible=infeasible,
-                        ctx=W.ctx_cells()))
+        if not job.get("isolate"):
+            out.append(one_schedule(job, slots, sch))
+            continue
+        # every schedule in a forked copy of this interpreter: module-level state a schedule leaves behind (a torn
+        # cache) cannot reach the next schedule; forked from the main thread while no other thread is alive
+        r, w = os.pipe()
+        pid = os.fork()
+        if pid == 0:
+            code = 0
+            try:
+                os.close(r)
+                data = json.dumps(one_schedule(job, slots, sch)).encode()
+                with os.fdopen(w, "wb") as fh:
+                    fh.write(data)
+            except BaseException as e:
+                code = 1
+                try:
+                    sys.stderr.write("child: %s %s\n" % (type(e).__name__, e))
+                except Exception:
+                    pass
+            os._exit(code)
+        os.close(w)
+        with os.fdopen(r, "rb") as fh:
+            data = fh.read()
+        os.waitpid(pid, 0)
+        if data:
+            out.append(json.loads(data.decode()))
+        else:
+            out.append(dict(schedule=sch, results=[[{"st": "harness", "val": "child died", "extra": None}]] * len(job["threads"]),
+                            errors=["forked child produced no result"], trace=[], unused=0, infeasible=False, ctx=None))
     return dict(runs=out)
 
 
